@@ -118,6 +118,25 @@ def _declare(comp, of, wrt, A, fmt, const):
     raise ValueError(fmt)
 
 
+def _declare_approx(comp, s, a):
+    """Declare a stub's partials as approximated: one method for everything, or a method per input."""
+    def kw_for(method):
+        kw = {'method': method}
+        if method == 'fd':
+            kw.update(form=a['form'], step=a['step'], step_calc=a['step_calc'])
+        return kw
+    if a.get('methods'):
+        for i in s['ins']:
+            comp.declare_partials('*', i['name'], **kw_for(a['methods'].get(i['name'], a['method'])))
+        if s['kind'] == 'imp':
+            comp.declare_partials('*', s['outs'][0]['name'], **kw_for(a['method']))
+    else:
+        comp.declare_partials('*', '*', **kw_for(a['method']))
+    if a.get('colored') and not a.get('methods'):
+        comp.declare_coloring(wrt='*', method=a['method'], num_full_jacs=2, tol=1e-20,
+                              show_summary=False, show_sparsity=False)
+
+
 class AffStub(om.ExplicitComponent):
     def initialize(self):
         self.options.declare('spec', recordable=False)
@@ -141,13 +160,7 @@ class AffStub(om.ExplicitComponent):
             return
         if s.get('approx'):
             a = s['approx']
-            kw = {'method': a['method']}
-            if a['method'] == 'fd':
-                kw.update(form=a['form'], step=a['step'], step_calc=a['step_calc'])
-            self.declare_partials('*', '*', **kw)
-            if a.get('colored'):
-                self.declare_coloring(wrt='*', method=a['method'], num_full_jacs=2, tol=1e-20,
-                                      show_summary=False, show_sparsity=False)
+            _declare_approx(self, s, a)
             return
         q = s.get('quad')
         for o in s['outs']:
@@ -250,13 +263,7 @@ class ImpStub(om.ImplicitComponent):
         self._decl = {}
         if s.get('approx'):
             a = s['approx']
-            kw = {'method': a['method']}
-            if a['method'] == 'fd':
-                kw.update(form=a['form'], step=a['step'], step_calc=a['step_calc'])
-            self.declare_partials('*', '*', **kw)
-            if a.get('colored'):
-                self.declare_coloring(wrt='*', method=a['method'], num_full_jacs=2, tol=1e-20,
-                                      show_summary=False, show_sparsity=False)
+            _declare_approx(self, s, a)
             return
         key = o['name'] + '|' + o['name']
         self._decl[key] = _declare(self, o['name'], o['name'], s['D'], s['fmt'][key], True)
@@ -430,7 +437,11 @@ def _cls(base, world, c):
                     except Exception:      # noqa
                         absn = []
                     if any(a.startswith(pre) for a in absn):
-                        model.set_val(n, case.outputs[n])
+                        # the recorded value is the source's, in the source's units (a group-level default may
+                        # give an automatic source other units than the input it feeds)
+                        src = model.get_source(absn[0])
+                        meta = model._var_allprocs_abs2meta['output'].get(src)
+                        model.set_val(n, case.outputs[n], units=None if meta is None else meta['units'])
     WithLoadCase.__name__ = base.__name__
     return WithLoadCase
 
@@ -554,6 +565,10 @@ def build(world, rt, name='w', tol=None, reorder=False, problem_kwargs=None):
                     kw['src_indices'] = to_index(i['idx'])
                     kw['flat_src_indices'] = bool(i['flat'])
                 groups[at].connect(rel_name(world, i['src'], at), rel_name(world, i['name'], at), **kw)
+    for c in world['comps']:
+        for i in c['ins']:
+            if i.get('default_units') and i['default_units'] != i['units']:
+                p.model.set_input_defaults(rel_name(world, i['name']), units=i['default_units'])
     # discrete connections (root level, by promoted name)
     def disc_name(c, var):
         name = var if c['prom'] else c['name'] + '.' + var
